@@ -1,6 +1,7 @@
 package main
 
 import (
+	"regexp"
 	"golang.org/x/tools/go/ssa"
 )
 
@@ -47,11 +48,19 @@ func checkC16(c *Ctx) {
 		reportFindings(c, p, "C16.bounds", []*ssa.Function{vp}, hits, "accesses-guarded")
 	}
 	const vx = "field/koalabear/vortex"
+	// the functions of the package that compute a node by compression (CompressPoseidon2 itself and
+	// whatever wraps it, e.g. a fold over the proof)
+	rootFns := "CompressPoseidon2"
+	for _, f := range libFuncs(p, vx) {
+		if f.Parent() == nil && f.Name() != "CompressPoseidon2" && f.Signature.Results().Len() == 1 && reachesCallee(f, "CompressPoseidon2") {
+			rootFns += "|" + regexp.QuoteMeta(f.Name())
+		}
+	}
 	if fn := p.Func(vx, "MerkleProof", "Verify"); fn != nil {
 		RequireFacts(c, p, "C16.guard", fn, AcceptNilErr, nil, []Req{
 			{"InRange(i)>=0", `^0 <= p0$`},
 			{"InRange(i)<2^depth", `^\(p0>>len\(pr\)\) == 0$|^p0 < \(1<<len\(pr\)\)$`},
-			{"root-compared", `^p2 == .*CompressPoseidon2|CompressPoseidon2.* == p2$`},
+			{"root-compared", `^p2 == .*(?:` + rootFns + `)\(|(?:` + rootFns + `)\(.* == p2$`},
 		})
 	} else {
 		c.Undecided("anchor vortex.MerkleProof.Verify not found")
@@ -108,6 +117,25 @@ func checkC16(c *Ctx) {
 	if fn := p.Func(vx, "", "BuildMerkleTree"); fn != nil {
 		c.Instance("C16.par", 1)
 		n, bad := partitionedWrites(p, fn)
+		// the level loop may hand the per-level work to a function of the package
+		seenPW := map[*ssa.Function]bool{fn: true}
+		var more func(f *ssa.Function, d int)
+		more = func(f *ssa.Function, d int) {
+			for _, b := range f.Blocks {
+				for _, in := range b.Instrs {
+					if ci, ok := in.(ssa.CallInstruction); ok {
+						if h := ci.Common().StaticCallee(); h != nil && h.Blocks != nil && fnPkgPath(h) == fnPkgPath(fn) && h.Parent() == nil && !seenPW[h] && d < 3 {
+							seenPW[h] = true
+							n2, b2 := partitionedWrites(p, h)
+							n += n2
+							bad = append(bad, b2...)
+							more(h, d+1)
+						}
+					}
+				}
+			}
+		}
+		more(fn, 0)
 		c.Ob("C16.par", vx, funcKey(fn), "closure-writes-partitioned", p.Pos(fn.Pos()), n > 0 && len(bad) == 0, funcKey(fn)+": a parallel closure writes a captured slice at an index not derived from its [start,end) range: "+joinStr(bad))
 	} else {
 		c.Undecided("anchor vortex.BuildMerkleTree not found")
